@@ -33,6 +33,7 @@ BASE_REPLACE = [
     "janetc_error:sp_error_stub",
     "janet_v_grow:sp_nogrow_stub",
     "janetc_const:sp_const_stub",
+    "janet_equals:sp_equals_stub",
 ]
 COMPILE_KEEP = ["janetc_scope", "janetc_popscope", "janetc_popscope_keepslot", "janetc_cslot", "janetc_fopts_default", "janetc_gettarget", "janetc_freeslot"]
 WRAP_KEEP = ["janet_wrap_nil", "janet_truthy", "janet_wrap_number"]
@@ -45,14 +46,17 @@ def M(name, find, replace, expect, file="specials.c", **kw):
 
 
 def unit(uid, entry, fn, clause, bound, mutants, assumes, tier="quick", defines=None, replace=None, compile_keep=None, wrap_keep=None,
-         unwind=18, timeout=300, extra=None, functions=None, grow=None):
+         unwind=7, timeout=300, extra=None, functions=None, grow=None, override=None):
+    ov = dict(override or {})
+    if grow:
+        ov["janet_v_grow"] = grow
     u = {"id": uid, "props": ["C02"], "tier": tier, "class": "bounded", "bound": bound, "clause": clause,
          "src": ["specials.c", "emit.c"], "link": ["compile.c", "wrap.c"],
          "link_keep": {"compile.c": compile_keep or COMPILE_KEEP, "wrap.c": wrap_keep or WRAP_KEEP},
          "harness": ["comp_specials.c"], "entry": entry, "mode": "plain", "nanbox": False,
          "functions": functions or [fn, "janetc_scope", "janetc_popscope", "janetc_emit", "janetc_copy"],
-         "replace_calls": [r if not (grow and r.startswith("janet_v_grow:")) else "janet_v_grow:" + grow for r in BASE_REPLACE] + (replace or []),
-         "checks": CHECKS, "unwind": unwind, "unwinding_assertions": True, "timeout": timeout,
+         "replace_calls": [((r.split(":")[0] + ":" + ov[r.split(":")[0]]) if r.split(":")[0] in ov else r) for r in BASE_REPLACE] + (replace or []),
+         "checks": CHECKS, "unwind": unwind, "unwindset": {"sp_run.0": 14}, "unwinding_assertions": True, "timeout": timeout,
          "assumes": assumes, "mutants": mutants, "defines": defines or []}
     if extra:
         u.update(extra)
@@ -126,6 +130,7 @@ DO_CLAUSE = ("%s: the sub-forms are compiled and evaluated once each in order; e
              "never in tail position); the last form inherits the context (tail, hint, drop) and its value is the value of the form (nil and no code when empty); %s")
 DO_BOUND = "0..3 sub-forms whose results are constants, temporaries or named locals; " + bound_ctx("value used (with or without hint), dropped or tail position")
 DO_A = [A_VALUE, A_RA, A_GROW, A_INTERP, A_ERR]
+DO_UW = {"unwindset": {"sp_run.0": 14, "janetc_do.0": 4, "janetc_upscope.0": 4}}
 units.append(unit(
     "comp.do", "h_do", "janetc_do",
     DO_CLAUSE % ("do", "the forms are compiled in a lexical scope of the do which is popped afterwards, the result register staying allocated in the enclosing scope"),
@@ -135,7 +140,7 @@ units.append(unit(
      M("result-register-not-kept", "    janetc_popscope_keepslot(c, ret);\n    return ret;", "    janetc_popscope(c);\n    return ret;", "stays allocated"),
      M("dropped-register-leaked", "            janetc_freeslot(c, ret);\n        }\n    }\n    janetc_popscope_keepslot", "        }\n    }\n    janetc_popscope_keepslot", "is released"),
      M("no-scope", "    janetc_scope(&tempscope, c, 0, \"do\");\n", "", "plain lexical scope|scope the form opened")],
-    DO_A))
+    DO_A, extra=DO_UW))
 units.append(unit(
     "comp.upscope", "h_do", "janetc_upscope",
     DO_CLAUSE % ("upscope", "no scope is opened: the forms are compiled in the enclosing scope"),
@@ -144,7 +149,7 @@ units.append(unit(
        "    for (i = 0; i < argn; i++) {\n        if (i != argn - 1) {\n            subopts.flags = JANET_FOPTS_DROP;\n        } else {\n            subopts = opts;\n            subopts.flags &= ~JANET_FOPTS_ACCEPT_SPLICE;\n        }\n        ret = janetc_value(subopts, argv[i]);\n        if (i != argn - 1) {\n            janetc_freeslot(c, ret);\n        }\n    }\n    return janetc_cslot(janet_wrap_nil());", "value of the do is the value of its last form"),
      M("upscope-order-reversed", "        ret = janetc_value(subopts, argv[i]);\n        if (i != argn - 1) {\n            janetc_freeslot(c, ret);\n        }\n    }\n    return ret;",
        "        ret = janetc_value(subopts, argv[argn - 1 - i]);\n        if (i != argn - 1) {\n            janetc_freeslot(c, ret);\n        }\n    }\n    return ret;", "in order|last form")],
-    DO_A, defines=["-DSP_UPSCOPE=1"]))
+    DO_A, defines=["-DSP_UPSCOPE=1"], extra=DO_UW))
 
 # ------------------------------------------------------------------ break
 units.append(unit(
@@ -205,7 +210,62 @@ units.append(unit(
      M("key-before-ds", "        JanetSlot ds = janetc_value(subopts, tup[0]);\n        JanetSlot key = janetc_value(subopts, tup[1]);", "        JanetSlot key = janetc_value(subopts, tup[1]);\n        JanetSlot ds = janetc_value(subopts, tup[0]);", "in this order|then key"),
      M("value-may-be-tail", "        opts.flags &= ~(JANET_FOPTS_TAIL | JANET_FOPTS_DROP);", "        opts.flags &= ~JANET_FOPTS_DROP;", "none compiled as tail call|control continues")],
     [A_VALUE, A_RA, A_GROW, A_INTERP, A_ERR, "PUT a b c stores reg c under key reg b into reg a (reference interpreter)"],
-    compile_keep=SET_KEEP, replace=["janetc_lintf:sp_lintf_stub"], defines=["-DSP_SET_SHAPE=1"], functions=["janetc_varset", "janetc_emit_sss"]))
+    compile_keep=SET_KEEP, replace=["janetc_lintf:sp_lintf_stub"], defines=["-DSP_SET_SHAPE=1", "-DSP_HINT=0"], functions=["janetc_varset", "janetc_emit_sss"]))
+units[-1]["bound"] = units[-1]["bound"].replace("value used (with or without hint)", "value used (no hint slot: see comp.set.field.hint)")
+units.append(unit(
+    "comp.set.field.hint", "h_set", "janetc_varset",
+    "set: (set (ds key) v) whose own value is delivered into a variable (hint slot), e.g. (set x (set (ds key) v)): ds, key and v are evaluated in order and v is put under key into ds "
+    "even when ds or key is the receiving variable itself; the form yields v",
+    "(set (ds key) v) compiled with a hint slot (any register below 24; a sub-form whose value lives in that register is that variable); " + bound_ctx("value used with hint"),
+    [M("put-operands-swapped", "        janetc_emit_sss(opts.compiler, JOP_PUT, ds, key, rvalue, 0);", "        janetc_emit_sss(opts.compiler, JOP_PUT, ds, rvalue, key, 0);", "exactly one put")],
+    [A_VALUE, A_RA, A_GROW, A_INTERP, A_ERR, "PUT a b c stores reg c under key reg b into reg a (reference interpreter)"],
+    compile_keep=SET_KEEP, replace=["janetc_lintf:sp_lintf_stub"], defines=["-DSP_SET_SHAPE=1", "-DSP_CTX=0", "-DSP_HINT=1"], functions=["janetc_varset", "janetc_emit_sss"],
+    extra={"finding": "FAILS on the pinned tree (genuine defect): janetc_varset keeps JANET_FOPTS_HINT for the value form, so v is written into the receiving variable before the PUT "
+                      "reads ds / key. Reproducers: (defn f [] (var x @{}) (set x (set (x :k) 5)) x) (f) -> error 'expected array, table or buffer, got 5'; "
+                      "(defn g [] (var x @{}) (def t x) (var k :a) (set k (set (x k) 5)) [k t]) (g) -> (5 @{5 5}) instead of (5 @{:a 5})"}))
+
+# ------------------------------------------------------------------ quote / splice / quasiquote
+units.append(unit(
+    "comp.quote", "h_quote", "janetc_quote",
+    "quote: (quote x) is the constant x itself for any datum x; nothing is compiled or emitted; any other argument count is a compile error",
+    "0..2 arguments, x any type tag and payload; " + bound_ctx("any"),
+    [M("quote-yields-nil", "    return janetc_cslot(argv[0]);\n}", "    return janetc_cslot(janet_wrap_nil());\n}", "constant x itself"),
+     M("quote-arity-unchecked", "    if (argn != 1) {\n        janetc_cerror(opts.compiler, \"expected 1 argument to quote\");", "    if (argn < 1) {\n        janetc_cerror(opts.compiler, \"expected 1 argument to quote\");", "exactly one argument")],
+    [A_GROW, A_ERR, "janetc_cslot(x) is the constant slot of x (real code)"], functions=["janetc_quote", "janetc_cslot"]))
+units.append(unit(
+    "comp.splice", "h_splice", "janetc_splice",
+    "splice: (splice x) is only accepted where the enclosing form takes a list of values (flag ACCEPT_SPLICE), with exactly one argument - otherwise a compile error and no code; "
+    "x is compiled once in the context of the splice form and its slot is returned marked as spliced",
+    "0..2 arguments; " + bound_ctx("any, with and without ACCEPT_SPLICE"),
+    [M("splice-accepted-anywhere", "    if (!(opts.flags & JANET_FOPTS_ACCEPT_SPLICE)) {", "    if (0) {", "compile error and emits nothing"),
+     M("splice-flag-lost", "    ret.flags |= JANET_SLOT_SPLICED;\n    return ret;", "    return ret;", "marked as spliced")],
+    [A_VALUE, A_RA, A_GROW, A_INTERP, A_ERR], functions=["janetc_splice"]))
+for QT, QTXT in ((0, "~(a ,f2 (quasiquote (unquote a3)))"), (1, "~((foo a1) (unquote) ,f3)"), (2, "~(,f1 ,f2 a3)")):
+  units.append(unit(
+    "comp.quasiquote.t%d" % QT, "h_quasiquote", "quasiquote",
+    "quasiquote: a datum is itself; (unquote f) at level 0 evaluates f (for its value, splice accepted) and everything else is data: a tuple / bracketed tuple / array template is "
+    "rebuilt at run time by the same kind of constructor from its elements in order - data elements as constants, unquoted elements as their values (a spliced value stays "
+    "spliced), nested tuples rebuilt recursively; an unquote without argument is data; an unquote under a nested quasiquote belongs to that level and is not evaluated; "
+    "unquoted forms are evaluated left to right, once; templates nested deeper than the recursion guard are a compile error",
+    "templates: a bare datum, a bare (unquote f), or the first 0..3 elements of " + QTXT + " as tuple, bracket tuple or array (unquoted values constant, register or spliced); "
+    "recursion guard 0..4 or the default 1024; tables and structs not exercised; " + bound_ctx("any"),
+    [M("unquote-at-inner-level-evaluated", "                    if (level == 0) {\n                        JanetFopts subopts = janetc_fopts_default(opts.compiler);", "                    if (level <= 1) {\n                        JanetFopts subopts = janetc_fopts_default(opts.compiler);", "deeper quasiquote level|nested tuple is rebuilt"),
+     M("nested-quasiquote-level-not-counted", "                } else if (!janet_cstrcmp(head, \"quasiquote\")) {\n                    level++;", "                } else if (!janet_cstrcmp(head, \"quasiquote\")) {\n                    level += 0;", "deeper quasiquote level|nested tuple is rebuilt"),
+     M("bracket-kind-lost", "            return qq_slots(opts, slots, (janet_tuple_flag(tup) & JANET_TUPLE_FLAG_BRACKETCTOR)\n                            ? JOP_MAKE_BRACKET_TUPLE", "            return qq_slots(opts, slots, (janet_tuple_flag(tup) & JANET_TUPLE_FLAG_BRACKETCTOR)\n                            ? JOP_MAKE_TUPLE", "same kind of sequence"),
+     M("depth-guard-off-by-one", "    if (depth == 0) {\n        janetc_cerror(opts.compiler, \"quasiquote too deeply nested\");", "    if (depth < 0) {\n        janetc_cerror(opts.compiler, \"quasiquote too deeply nested\");", "deeper than the guard"),
+     M("unquote-splice-not-accepted", "                        subopts.flags |= JANET_FOPTS_ACCEPT_SPLICE;\n                        return janetc_value(subopts, tup[1]);", "                        return janetc_value(subopts, tup[1]);", "splice is accepted"),
+     M("elements-reversed", "            for (i = 0; i < len; i++)\n                janet_v_push(slots, quasiquote(subopts, tup[i], depth - 1, level));", "            for (i = 0; i < len; i++)\n                janet_v_push(slots, quasiquote(subopts, tup[len - 1 - i], depth - 1, level));", "element|left to right")],
+    [A_VALUE, A_GROW + "; slot vectors of the constructors come from a pool of 6 preallocated vectors", A_ERR,
+     "janetc_pushslots / janetc_freeslots / janetc_emit_s are recording stubs: a constructor is the event push(elements); make-op target",
+     "janet_cstrcmp compares the interned symbols unquote / quasiquote by identity; fresh registers are 0, 1, 2, ... (never the live hint register)"],
+    replace=["janet_cstrcmp:sp_cstrcmp_stub", "janetc_pushslots:sp_pushslots_stub", "janetc_freeslots:sp_freeslots_stub", "janetc_emit_s:sp_emit_s_stub",
+             "janet_dictionary_view:sp_dictview_stub", "janet_dictionary_next:sp_dictnext_stub"],
+    grow="sp_grow_qq_stub", override={"janetc_regalloc_1": "sp_ra_1_seq_stub"}, functions=["quasiquote", "qq_slots", "janetc_quasiquote", "janetc_gettarget"],
+    defines=["-DSP_QQ_TEMPLATE=%d" % QT], extra={"unwindset": {"sp_run.0": 14, "quasiquote.0": 4, "quasiquote.1": 4}}))
+QQM = units[-3]["mutants"]
+units[-3]["mutants"] = [QQM[0], QQM[1], QQM[3], QQM[5]]
+units[-2]["mutants"] = [QQM[2], QQM[3], QQM[5]]
+units[-1]["mutants"] = [QQM[4], QQM[5], QQM[2]]
 
 json.dump({"units": units}, open(os.path.join(VERIF, "units", "C02_specials.json"), "w"), indent=1)
 print("wrote %d units" % len(units))
